@@ -403,7 +403,10 @@ func loadView(ctx context.Context, scope *ReferenceScope, tableExpr parser.Query
 		}
 
 		if view.FileInfo != nil {
-			view.FileInfo.ViewType = ViewTypeInlineTable
+			// The result of "SELECT * FROM table" shares its file information with the cached view of the table.
+			fileInfo := *view.FileInfo
+			fileInfo.ViewType = ViewTypeInlineTable
+			view.FileInfo = &fileInfo
 		}
 	}
 
